@@ -20,6 +20,16 @@ use crate::vocab;
 pub struct C04Prop;
 pub static C04: C04Prop = C04Prop;
 
+fn operands2(ev: Ev) -> [&'static str; 4] {
+    // powers of ten with large exponents are a classic special case
+    match ev {
+        Ev::I64 => ["10", "12", "2", "30"],
+        Ev::Cpx => ["10", "24", "2i", "30"],
+        Ev::Dec => ["10", "24", "2", "0.5"],
+        _ => ["10", "24", "2", "30"],
+    }
+}
+
 fn operands(ev: Ev) -> [&'static str; 4] {
     match ev {
         Ev::I64 => ["2", "3", "5", "7"],
@@ -69,6 +79,7 @@ fn groupings(k: usize) -> Vec<Vec<(usize, usize)>> {
 }
 
 struct Space {
+    alt: bool,
     ev: Ev,
     k: usize,
     ops: Vec<BinOp>,
@@ -92,7 +103,7 @@ impl Space {
             idx /= self.decs.len() as u64;
         }
         let g = &self.groups[(idx % self.groups.len() as u64) as usize];
-        let base = operands(self.ev);
+        let base = if self.alt { operands2(self.ev) } else { operands(self.ev) };
         let mut s = String::new();
         for i in 0..=self.k {
             if g.iter().any(|sp| sp.0 == i) {
@@ -119,7 +130,10 @@ fn spaces(sub: &str, tier: Tier) -> Vec<Space> {
             ("enum3", Tier::Quick) => (3, 0),
             _ => (3, 1),
         };
-        v.push(Space { ev, k, ops: BinOp::for_ev(ev), decs: decorations(ev, red), groups: groupings(k) });
+        v.push(Space { alt: false, ev, k, ops: BinOp::for_ev(ev), decs: decorations(ev, red), groups: groupings(k) });
+        if k <= 2 {
+            v.push(Space { alt: true, ev, k, ops: BinOp::for_ev(ev), decs: decorations(ev, if k == 1 { 2 } else { 1 }), groups: groupings(k) });
+        }
     }
     v
 }
@@ -182,7 +196,7 @@ fn has_nested_pair(e: &E) -> bool {
 pub fn tree_profile(ev: Ev) -> Profile {
     let mut p = Profile::full(ev);
     p.lits = operands(ev).iter().filter(|s| !s.starts_with('(')).map(|s| s.to_string()).collect();
-    p.lits.extend(["4", "1"].iter().map(|s| s.to_string()));
+    p.lits.extend(["4", "1", "10", "24", "30", "100"].iter().map(|s| s.to_string()));
     p.neg_lits = true;
     p.max_depth = 6;
     p.funcs.retain(|f| !["w", "ilog"].contains(&f.canon));
@@ -194,7 +208,7 @@ impl Prop for C04Prop {
         "C04"
     }
     fn rule(&self) -> String {
-        "Well-formed expressions of every evaluator. Exhaustive: all chains of 1, 2 and 3 infix operators from the evaluator's full operator set over distinct operands, each operand optionally decorated (prefix -/+, postfix !, °, rad, superscript, ( ), ⌊ ⌋, ⌈ ⌉; enum3: reduced decoration set) and every single round-bracket span; random trees of depth <=6 (operators, prefix/postfix forms, brackets, calls, juxtaposition) beyond. Oracles: (a) exact reference evaluation of the stratified reference parse (bit-exact f64, i128-exact i64 with Err, typed number, exact decimal, component-exact complex + - *); (b) the fully bracketed, explicit-product rendering of the reference parse must evaluate to the same outcome bit for bit. non-trivial = >=2 operator nodes, two operator nodes directly nested without brackets, and (where the reference can tell) regrouping that pair changes the value; distinct by (evaluator,input,placeholder).".into()
+        "Well-formed expressions of every evaluator. Exhaustive: all chains of 1, 2 and 3 infix operators from the evaluator's full operator set over distinct operands, each operand optionally decorated (prefix -/+, postfix !, °, rad, superscript, ( ), ⌊ ⌋, ⌈ ⌉; enum3: reduced decoration set) and every single round-bracket span; long forms (flat chains of 2..512 operands per operator with order-sensitive operands such as 1e16+1.0+1.0… and i64::MAX+1+0…+(-2), deep brackets, prefix and postfix chains); random trees of depth <=6 (operators, prefix/postfix forms, brackets, calls, juxtaposition) beyond. Oracles: (a) exact reference evaluation of the stratified reference parse (bit-exact f64, i128-exact i64 with Err, typed number, exact decimal, component-exact complex + - *); (b) the fully bracketed, explicit-product rendering of the reference parse must evaluate to the same outcome bit for bit. non-trivial = >=2 operator nodes, two operator nodes directly nested without brackets, and (where the reference can tell) regrouping that pair changes the value; distinct by (evaluator,input,placeholder).".into()
     }
     fn subs(&self, tier: Tier) -> Vec<Sub> {
         let mut v = Vec::new();
@@ -202,10 +216,15 @@ impl Prop for C04Prop {
             let total: u64 = spaces(name, tier).iter().map(|s| s.size()).sum();
             v.push(Sub { name, kind: SubKind::Enum { count: total } });
         }
+        v.push(Sub { name: "long", kind: SubKind::Enum { count: super::long::all(true).len() as u64 } });
         v.push(Sub { name: "tree", kind: SubKind::Random { cases: tier.pick(600_000, 30_000_000), len: 160 } });
         v
     }
     fn gen_enum(&self, sub: &str, mut idx: u64, tier: Tier) -> Option<Case> {
+        if sub == "long" {
+            let (ev, s) = super::long::all(true).get(idx as usize)?.clone();
+            return Some(Case::new(ev, s, Val::default_for(ev)));
+        }
         for sp in spaces(sub, tier) {
             if idx < sp.size() {
                 return Some(Case::new(sp.ev, sp.decode(idx), Val::default_for(sp.ev)));
